@@ -117,6 +117,17 @@ SFrameComp(d, x, comp) ==
       c == IF comp = "lz4" THEN Lz4Stored(rest) ELSE SnappyStored(rest) IN
   SHeader(FlagsOf(x) + 1, x.stream, Opcode(d), Len(Bytes(c))) \o c
 
+\* a REAL LZ4 block (not literals only) for a body that ends in a run of K equal bytes: one sequence = the bytes before the run
+\* and its first byte as literals + a match at offset 1 over the run (less its last 5 bytes), then the 5 closing literals.
+\* Such a body shrinks by far more than 64 : 1 (LZ4 can reach 255 : 1): a plausibility bound on the declared size must admit it.
+LenExt(n) == IF n < 15 THEN << >> ELSE [i \in 1..((n - 15) \div 255) |-> 255] \o <<(n - 15) % 255>>
+Lz4Run(b, K) ==
+  LET lit == SubSeq(b, 1, Len(b) - K + 1)  ml == K - 6  tail == SubSeq(b, Len(b) - 4, Len(b))
+      tok == (IF Len(lit) < 15 THEN Len(lit) ELSE 15) * 16 + (IF ml - 4 < 15 THEN ml - 4 ELSE 15) IN
+  Seg("len32x", Len(b), Int32(Len(b))) \o SRaw(<<tok>> \o LenExt(Len(lit)) \o lit \o <<1, 0>> \o LenExt(ml - 4) \o <<80>> \o tail)
+RowsRun(K) == Rows(Meta(TRUE, <<Col("ks", "t", "v", NT("text"))>>, None, None), <<NT("text")>>, << <<Txt([i \in 1..K |-> 97])>> >>)
+SFrameLz4Run(d, K) == LET c == Lz4Run(Bytes(SBody(d)), K) IN SHeader(FlagsOf(Plain) + 1, Plain.stream, Opcode(d), Len(Bytes(c))) \o c
+
 (********************************** cases **********************************)
 Rep == IF Full THEN Descs ELSE {d \in Descs : d.k \in {"rows", "prepared", "supported"} \/ (d.k = "error" /\ d.code \in {4096, 4352, 5120, 9472, 61440})
                                              \/ (d.k = "event" /\ d.ev.k # "schema") \/ d.k \in {"auth_success", "schema_change"}}
@@ -150,6 +161,7 @@ Init ==
   \/ \E d \in ExtHosts : \E x \in Exts \ {Plain} : c = [kind |-> "wf", d |-> d, x |-> x, comp |-> "none", segs |-> SFrame(d, x)]
   \/ \E d \in ExtHosts \cup {Supp} : \E x \in {Plain, [Plain EXCEPT !.tracing = Uuid16]} : \E cm \in {"lz4", "snappy"} :
         c = [kind |-> "wf", d |-> d, x |-> x, comp |-> cm, segs |-> SFrameComp(d, x, cm)]
+  \/ \E K \in {600, 20000} : LET d == RowsRun(K) IN c = [kind |-> "wf", d |-> d, x |-> Plain, comp |-> "lz4", segs |-> SFrameLz4Run(d, K)]
   \/ \E d \in Rep : LET segs == SFrame(d, Plain) IN \E i \in 1..Len(segs) : \E m \in MutantsAt(segs, i) :
         c = [kind |-> "mut", d |-> d, x |-> Plain, comp |-> "none", segs |-> m, at |-> i, tag |-> segs[i].tag]
   \/ \E d \in {[k |-> "void"], Rows(Meta(TRUE, Cols3, None, None), T3, Rows3)} : \E x \in Exts \ {Plain} :
